@@ -915,6 +915,24 @@ func (ps *parser) parseGhostBlock() ([]*GhostStmt, error) {
 				return nil, err
 			}
 			out = append(out, &GhostStmt{Kind: "assume", Expr: e, Line: t.line})
+		case t.kind == "id" && t.text == "havoc":
+			// havoc item {, item}: the listed locations / ghosts take arbitrary values (what another thread may have
+			// done to lock-protected state before a lock was acquired); items are written as in a modifies clause
+			ps.next()
+			hs := &GhostStmt{Kind: "havoc", Line: t.line}
+			for {
+				e, err := ps.parseModItem()
+				if err != nil {
+					return nil, err
+				}
+				hs.Then = append(hs.Then, &GhostStmt{Expr: e})
+				if ps.isOp(",") {
+					ps.next()
+					continue
+				}
+				break
+			}
+			out = append(out, hs)
 		case t.kind == "id" && t.text == "if":
 			ps.next()
 			e, err := ps.parseExpr()
